@@ -237,6 +237,7 @@ static void op_bwait(actor *a, int b)
     if (r + 1 >= MAXROUND)
         generr("too many barrier rounds");
     int n = b_n[b];
+    int gen0 = ALOAD(b_gen[b]);
     int before = AINC(b_arrived[b][r]);
     if (before > n)
         generr("more than n participants in a barrier round");
@@ -250,7 +251,7 @@ static void op_bwait(actor *a, int b)
     if (got != n)
         viol("barrier %d round %d: a waiter was released after %d of %d arrivals", b, r, got, n);
     int nxt = ALOAD(b_arrived[b][r + 1]);
-    if (nxt > n)
+    if (nxt > n && ALOAD(b_gen[b]) == gen0) /* (a reinit may have raised the count meanwhile) */
         viol("barrier %d round %d: %d arrivals counted for the next round", b, r + 1, nxt);
     if (nxt > 0)
         stat_add("barrier_overlap", 1); /* somebody already re-entered */
@@ -276,8 +277,8 @@ static void op_breinit(actor *a, int b, int n)
         if (b_arrived[b][r])
             top = r + 1;
     b_round_base[b] = top;
-    b_gen[b]++;
     b_n[b] = n;
+    AINC(b_gen[b]);
     uint32_t q = 0;
     rc = ABT_barrier_get_num_waiters(G.barrier[b], &q);
     CHECK_RC(rc, "ABT_barrier_get_num_waiters");
